@@ -24,6 +24,8 @@ DECIDED_R7 = ('Round 7: the parsed views (json, POST) are produced whatever the 
 DECIDED = DECIDED + ' ' + DECIDED_R7
 DECIDED_R8 = ('Round 8: premises C04.d / C04.e (the body is read whatever the verb, to the end of the framing); both configuration entry points hand the request the merged configuration.')
 DECIDED = DECIDED + ' ' + DECIDED_R8
+DECIDED_R9 = ('Round 9: the emptiness test of every size-line read stands before the next read on every path (b).')
+DECIDED = DECIDED + ' ' + DECIDED_R9
 NOT_DECIDED = ('which spellings of the size line int(x, 16) accepts (sign, underscores, 0x prefix): value semantics of the '
                'conversion; equality of decoded payload with the sent payload beyond the loop-invariant premises above.')
 ASSUMPTIONS = ['wsgi.input.read(n) returns at most n bytes (PEP 3333)', 'int(b, 16) raises ValueError on non-hex text']
